@@ -151,76 +151,87 @@ Proof.
 Qed.
 
 (* ---- consequences of [mid] *)
-Section Mid.
-  Variables (E : list (nat * nat)) (st : truf) (x y : nat) (st2 : truf) (xs ys : nat) (xn yn : bool).
-  Hypothesis Ht : tinv E st.
-  Hypothesis Hm : mid E st x y st2 xs ys xn yn.
+Lemma mid_cn : forall E st x y st2 xs ys xn yn, mid E st x y st2 xs ys xn yn ->
+  forall a b, cn st2 a b <-> cn st a b.
+Proof. intros E st x y st2 xs ys xn yn Hm a b; unfold cn; rewrite (md_conn _ _ _ _ _ _ _ _ _ Hm); reflexivity. Qed.
+Lemma mid_rv : forall E st x y st2 xs ys xn yn, mid E st x y st2 xs ys xn yn ->
+  forall a b, rv st2 a b <-> rv st a b.
+Proof. intros E st x y st2 xs ys xn yn Hm a b; unfold rv; rewrite (md_rev _ _ _ _ _ _ _ _ _ Hm); reflexivity. Qed.
 
-  Lemma mid_cn : forall a b, cn st2 a b <-> cn st a b.
-  Proof. intros; unfold cn; rewrite (md_conn _ _ _ _ _ _ _ _ _ Hm); reflexivity. Qed.
-  Lemma mid_rv : forall a b, rv st2 a b <-> rv st a b.
-  Proof. intros; unfold rv; rewrite (md_rev _ _ _ _ _ _ _ _ _ Hm); reflexivity. Qed.
+Lemma mid_cn_old : forall E st x y st2 xs ys xn yn, tinv E st -> mid E st x y st2 xs ys xn yn ->
+  forall a b, cn st2 a b -> a < nsets st /\ b < nsets st.
+Proof.
+  intros E st x y st2 xs ys xn yn Ht Hm.
+  intros a b H. apply (mid_cn _ _ _ _ _ _ _ _ _ Hm) in H.
+  destruct (cn_dominant st a b (w_conn E st Ht) H) as [[Ha _] [Hb _]]. auto.
+Qed.
+Lemma mid_rv_old : forall E st x y st2 xs ys xn yn, tinv E st -> mid E st x y st2 xs ys xn yn ->
+  forall a b, rv st2 a b -> a < nsets st /\ b < nsets st.
+Proof.
+  intros E st x y st2 xs ys xn yn Ht Hm.
+  intros a b H. apply (mid_rv _ _ _ _ _ _ _ _ _ Hm) in H.
+  pose proof (proj1 (tinv_split E st) Ht) as [Hc _].
+  destruct (wf_rv_dom E st Hc a b H) as [[Ha _] [Hb _]]. auto.
+Qed.
+Lemma mid_conn_key : forall E st x y st2 xs ys xn yn, tinv E st -> mid E st x y st2 xs ys xn yn ->
+  forall k, nsets st <= k -> aget k (t_conn st2) = None.
+Proof.
+  intros E st x y st2 xs ys xn yn Ht Hm.
+  intros k Hk. rewrite (md_conn _ _ _ _ _ _ _ _ _ Hm).
+  destruct (aget k (t_conn st)) as [c|] eqn:Hc; [|reflexivity].
+  destruct (w_conn E st Ht) as [_ Hw]. destruct (Hw k c Hc) as [[Hlt _] _]. lia.
+Qed.
+Lemma mid_rev_key : forall E st x y st2 xs ys xn yn, tinv E st -> mid E st x y st2 xs ys xn yn ->
+  forall k, nsets st <= k -> aget k (t_rev st2) = None.
+Proof.
+  intros E st x y st2 xs ys xn yn Ht Hm.
+  intros k Hk. rewrite (md_rev _ _ _ _ _ _ _ _ _ Hm).
+  destruct (aget k (t_rev st)) as [c|] eqn:Hc; [|reflexivity].
+  destruct (w_rev E st Ht) as [_ Hw]. destruct (Hw k c Hc) as [[Hlt _] _]. lia.
+Qed.
 
-  Lemma mid_cn_old : forall a b, cn st2 a b -> a < nsets st /\ b < nsets st.
-  Proof.
-    intros a b H. apply mid_cn in H.
-    destruct (cn_dominant st a b (w_conn E st Ht) H) as [[Ha _] [Hb _]]. auto.
-  Qed.
-  Lemma mid_rv_old : forall a b, rv st2 a b -> a < nsets st /\ b < nsets st.
-  Proof.
-    intros a b H. apply mid_rv in H.
-    pose proof (proj1 (tinv_split E st) Ht) as [Hc _].
-    destruct (wf_rv_dom E st Hc a b H) as [[Ha _] [Hb _]]. auto.
-  Qed.
-  Lemma mid_conn_key : forall k, nsets st <= k -> aget k (t_conn st2) = None.
-  Proof.
-    intros k Hk. rewrite (md_conn _ _ _ _ _ _ _ _ _ Hm).
-    destruct (aget k (t_conn st)) as [c|] eqn:Hc; [|reflexivity].
-    destruct (w_conn E st Ht) as [_ Hw]. destruct (Hw k c Hc) as [[Hlt _] _]. lia.
-  Qed.
-  Lemma mid_rev_key : forall k, nsets st <= k -> aget k (t_rev st2) = None.
-  Proof.
-    intros k Hk. rewrite (md_rev _ _ _ _ _ _ _ _ _ Hm).
-    destruct (aget k (t_rev st)) as [c|] eqn:Hc; [|reflexivity].
-    destruct (w_rev E st Ht) as [_ Hw]. destruct (Hw k c Hc) as [[Hlt _] _]. lia.
-  Qed.
+(* an element with an id in st is in the same class as before *)
+Lemma mid_mem_old : forall E st x y st2 xs ys xn yn, mid E st x y st2 xs ys xn yn ->
+  forall s z, mem_of st2 s z -> aget z (t_ids st) <> None -> mem_of st s z /\ s < nsets st.
+Proof.
+  intros E st x y st2 xs ys xn yn Hm.
+  intros s z Hs Hz. apply (md_mem _ _ _ _ _ _ _ _ _ Hm) in Hs.
+  destruct Hs as [Hs|[[Hx [_ ->]]|[Hy [_ ->]]]].
+  - split; [assumption|eapply mem_of_lt; eassumption].
+  - destruct (md_fx _ _ _ _ _ _ _ _ _ Hm Hx) as [_ Hn]. contradiction.
+  - destruct (md_fy _ _ _ _ _ _ _ _ _ Hm Hy) as [_ Hn]. contradiction.
+Qed.
+Lemma mid_dom_old : forall E st x y st2 xs ys xn yn, mid E st x y st2 xs ys xn yn ->
+  forall d, dominant st2 d -> d < nsets st -> dominant st d.
+Proof.
+  intros E st x y st2 xs ys xn yn Hm.
+  intros d Hd Hlt. apply (md_dom _ _ _ _ _ _ _ _ _ Hm) in Hd.
+  destruct Hd as [Hd|[[Hx ->]|[Hy ->]]]; [assumption| |].
+  - destruct (md_fx _ _ _ _ _ _ _ _ _ Hm Hx) as [Hge _]. lia.
+  - destruct (md_fy _ _ _ _ _ _ _ _ _ Hm Hy) as [Hge _]. lia.
+Qed.
 
-  (* an element with an id in st is in the same class as before *)
-  Lemma mid_mem_old : forall s z, mem_of st2 s z -> aget z (t_ids st) <> None -> mem_of st s z /\ s < nsets st.
-  Proof.
-    intros s z Hs Hz. apply (md_mem _ _ _ _ _ _ _ _ _ Hm) in Hs.
-    destruct Hs as [Hs|[[Hx [_ ->]]|[Hy [_ ->]]]].
-    - split; [assumption|eapply mem_of_lt; eassumption].
-    - destruct (md_fx _ _ _ _ _ _ _ _ _ Hm Hx) as [_ Hn]. contradiction.
-    - destruct (md_fy _ _ _ _ _ _ _ _ _ Hm Hy) as [_ Hn]. contradiction.
-  Qed.
-  Lemma mid_dom_old : forall d, dominant st2 d -> d < nsets st -> dominant st d.
-  Proof.
-    intros d Hd Hlt. apply (md_dom _ _ _ _ _ _ _ _ _ Hm) in Hd.
-    destruct Hd as [Hd|[[Hx ->]|[Hy ->]]]; [assumption| |].
-    - destruct (md_fx _ _ _ _ _ _ _ _ _ Hm Hx) as [Hge _]. lia.
-    - destruct (md_fy _ _ _ _ _ _ _ _ _ Hm Hy) as [Hge _]. lia.
-  Qed.
+Lemma mid_compl : forall E st x y st2 xs ys xn yn, tinv E st -> mid E st x y st2 xs ys xn yn ->
+  compl E st2.
+Proof.
+  intros E st x y st2 xs ys xn yn Ht Hm.
+  intros a b u v Da Db Ma Mb R.
+  destruct (rtc_mentioned E u v R) as [Mu Mv].
+  apply (m_ids E st Ht) in Mu. apply (m_ids E st Ht) in Mv.
+  destruct (mid_mem_old _ _ _ _ _ _ _ _ _ Hm a u Ma Mu) as [Ma' La]. destruct (mid_mem_old _ _ _ _ _ _ _ _ _ Hm b v Mb Mv) as [Mb' Lb].
+  pose proof (mid_dom_old _ _ _ _ _ _ _ _ _ Hm a Da La) as Da'. pose proof (mid_dom_old _ _ _ _ _ _ _ _ _ Hm b Db Lb) as Db'.
+  destruct (m_complete E st Ht a b u v Da' Db' Ma' Mb' R) as [H|H]; [left; assumption|right; apply (mid_cn _ _ _ _ _ _ _ _ _ Hm); assumption].
+Qed.
 
-  Lemma mid_compl : compl E st2.
-  Proof.
-    intros a b u v Da Db Ma Mb R.
-    destruct (rtc_mentioned E u v R) as [Mu Mv].
-    apply (m_ids E st Ht) in Mu. apply (m_ids E st Ht) in Mv.
-    destruct (mid_mem_old a u Ma Mu) as [Ma' La]. destruct (mid_mem_old b v Mb Mv) as [Mb' Lb].
-    pose proof (mid_dom_old a Da La) as Da'. pose proof (mid_dom_old b Db Lb) as Db'.
-    destruct (m_complete E st Ht a b u v Da' Db' Ma' Mb' R) as [H|H]; [left; assumption|right; apply mid_cn; assumption].
-  Qed.
-
-  (* presence of map keys, except for the fresh classes *)
-  Lemma mid_pres : forall d, dominant st2 d ->
-    (xn = true /\ d = xs) \/ (yn = true /\ d = ys) \/ (ahas d (t_conn st2) = true /\ ahas d (t_rev st2) = true).
-  Proof.
-    intros d Hd. apply (md_dom _ _ _ _ _ _ _ _ _ Hm) in Hd. destruct Hd as [Hd|[Hd|Hd]]; [|auto|auto].
-    right; right. rewrite (md_conn _ _ _ _ _ _ _ _ _ Hm), (md_rev _ _ _ _ _ _ _ _ _ Hm). apply (w_present E st Ht d Hd).
-  Qed.
-
-End Mid.
+(* presence of map keys, except for the fresh classes *)
+Lemma mid_pres : forall E st x y st2 xs ys xn yn, tinv E st -> mid E st x y st2 xs ys xn yn ->
+  forall d, dominant st2 d ->
+  (xn = true /\ d = xs) \/ (yn = true /\ d = ys) \/ (ahas d (t_conn st2) = true /\ ahas d (t_rev st2) = true).
+Proof.
+  intros E st x y st2 xs ys xn yn Ht Hm.
+  intros d Hd. apply (md_dom _ _ _ _ _ _ _ _ _ Hm) in Hd. destruct Hd as [Hd|[Hd|Hd]]; [|auto|auto].
+  right; right. rewrite (md_conn _ _ _ _ _ _ _ _ _ Hm), (md_rev _ _ _ _ _ _ _ _ _ Hm). apply (w_present E st Ht d Hd).
+Qed.
 
 (* both in one class and one of the two calls created a class: it was the first call *)
 Lemma mid_fresh_ne : forall E st x y st2 xs ys xn yn, tinv E st -> mid E st x y st2 xs ys xn yn ->
@@ -279,3 +290,216 @@ Proof.
     + apply (md_my _ _ _ _ _ _ _ _ _ Hm).
   - intros z Hz. rewrite Hi. apply (md_ids _ _ _ _ _ _ _ _ _ Hm); assumption.
 Qed.
+
+Lemma asc_maps_self : forall C R n, aget n C = None -> aget n R = None ->
+  (forall a, aget a (fst (asc_maps C R n n)) = if Nat.eqb a n then Some [n] else aget a C) /\
+  (forall a, aget a (snd (asc_maps C R n n)) = if Nat.eqb a n then Some [n] else aget a R).
+Proof.
+  intros C R n HC HR.
+  assert (EC : eget n C = []) by (unfold eget; rewrite HC; reflexivity).
+  assert (ER : eget n R = []) by (unfold eget; rewrite HR; reflexivity).
+  unfold asc_maps. rewrite EC, ER. cbn [sadd smem existsb app].
+  rewrite !eget_aset_eq.
+  cbn [sdiff filter smem existsb negb fold_left add_one_connection].
+  rewrite !eget_aset_eq. cbn [smem existsb sadd app fst snd].
+  split; intros a; rewrite !aget_aset; destruct (Nat.eqb a n); reflexivity.
+Qed.
+
+Lemma asc_self : forall Es st n,
+  cinv Es st -> dominant st n -> aget n (t_conn st) = None -> aget n (t_rev st) = None ->
+  (forall a, ~ cn st a n) -> (forall a, ~ rv st a n) ->
+  exists st', add_set_connection st n n = Ok (st', true) /\
+    t_sets st' = t_sets st /\ t_ids st' = t_ids st /\ t_subs st' = t_subs st /\
+    cinv Es st' /\
+    (forall a b, dominant st a ->
+       (cn st' a b <-> cn st a b \/ ((a = n \/ cn st a n) /\ (b = n \/ cn st n b)))) /\
+    (forall d, ahas d (t_conn st) = true \/ d = n \/ d = n -> ahas d (t_conn st') = true) /\
+    (forall d, ahas d (t_rev st) = true \/ d = n \/ d = n -> ahas d (t_rev st') = true).
+Proof.
+  intros Es st n Hc Dn HC HR Hnc Hnr.
+  assert (EC : eget n (t_conn st) = []) by (unfold eget; rewrite HC; reflexivity).
+  assert (ER : eget n (t_rev st) = []) by (unfold eget; rewrite HR; reflexivity).
+  assert (Hm : smem n (eget n (t_conn st)) = false) by (rewrite EC; reflexivity).
+  rewrite (asc_eq st n n Hm).
+  destruct (asc_maps_self (t_conn st) (t_rev st) n HC HR) as [AC AR].
+  destruct (asc_good (dominant st) (t_conn st) (t_rev st) n n) as [GC GR];
+    [apply mset_wf_good, (c_conn Es st Hc)|apply mset_wf_good, (c_rev Es st Hc)|exact Dn|exact Dn|].
+  set (C6 := fst (asc_maps (t_conn st) (t_rev st) n n)) in *.
+  set (R6 := snd (asc_maps (t_conn st) (t_rev st) n n)) in *.
+  exists (with_cr st C6 R6). split; [reflexivity|]. split; [reflexivity|]. split; [reflexivity|]. split; [reflexivity|].
+  assert (XC : forall a, eget a C6 = if Nat.eqb a n then [n] else eget a (t_conn st)).
+  { intros a; unfold eget; rewrite AC; destruct (Nat.eqb a n); reflexivity. }
+  assert (XR : forall a, eget a R6 = if Nat.eqb a n then [n] else eget a (t_rev st)).
+  { intros a; unfold eget; rewrite AR; destruct (Nat.eqb a n); reflexivity. }
+  assert (KC : forall a b, cn (with_cr st C6 R6) a b <-> cn st a b \/ (a = n /\ b = n)).
+  { intros a b. unfold cn; cbn [t_conn with_cr]. rewrite XC. destruct (Nat.eqb_spec a n) as [->|Han].
+    - rewrite EC. cbn. intuition.
+    - intuition. }
+  assert (KR : forall a b, rv (with_cr st C6 R6) a b <-> rv st a b \/ (a = n /\ b = n)).
+  { intros a b. unfold rv; cbn [t_rev with_cr]. rewrite XR. destruct (Nat.eqb_spec a n) as [->|Han].
+    - rewrite ER. cbn. intuition.
+    - intuition. }
+  assert (Hn0 : forall b, ~ cn st n b) by (intros b; unfold cn; rewrite EC; intros []).
+  split; [|split; [|split]].
+  - destruct Hc. constructor; try assumption.
+    + apply mset_wf_good; exact GC.
+    + apply mset_wf_good; exact GR.
+    + intros a b Hab. rewrite KC, KR, (c_conv a b Hab). intuition congruence.
+    + intros a b c Hab Hbc Hac. apply KC in Hab, Hbc. apply KC.
+      destruct Hab as [Hab|[-> ->]]; destruct Hbc as [Hbc|[Hb ->]].
+      * left; eapply c_trans; eassumption.
+      * subst b. exfalso; eapply Hnc; eassumption.
+      * exfalso; eapply Hn0; eassumption.
+      * congruence.
+    + intros a b Hne Hab Hba. apply KC in Hab, Hba.
+      destruct Hab as [Hab|[-> ->]]; [|congruence]. destruct Hba as [Hba|[-> ->]]; [|congruence].
+      eapply c_antisym; eassumption.
+    + intros a b u v Hab Hu Hv. apply KC in Hab. destruct Hab as [Hab|[-> ->]].
+      * eapply c_conn_sound; eassumption.
+      * eapply c_class; eassumption.
+  - intros a b _. rewrite KC. split.
+    + intros [H|[-> ->]]; auto.
+    + intros [H|[[->|H1] [->|H2]]]; auto; exfalso; first [eapply Hn0; eassumption|eapply Hnc; eassumption].
+  - intros d Hd. cbn [t_conn with_cr]. unfold ahas. rewrite AC. destruct (Nat.eqb_spec d n) as [->|Hdn]; [reflexivity|].
+    destruct Hd as [Hd|[Hd|Hd]]; [exact Hd|contradiction|contradiction].
+  - intros d Hd. cbn [t_rev with_cr]. unfold ahas. rewrite AR. destruct (Nat.eqb_spec d n) as [->|Hdn]; [reflexivity|].
+    destruct Hd as [Hd|[Hd|Hd]]; [exact Hd|contradiction|contradiction].
+Qed.
+
+Lemma asc_early : forall st from to, smem to (eget from (t_conn st)) = true ->
+  add_set_connection st from to = Ok (with_cr st (ensure from (t_conn st)) (t_rev st), false).
+Proof. intros st from to H. unfold add_set_connection. rewrite H. reflexivity. Qed.
+
+(* ---- the branches of tr_add *)
+
+(* a new edge between two different classes that are not connected in either direction *)
+Lemma case_new_edge : forall E st x y st2 xs ys xn yn,
+  tinv E st -> mid E st x y st2 xs ys xn yn -> xs <> ys -> ~ cn st2 ys xs -> ~ cn st2 xs ys ->
+  exists st3, add_set_connection st2 xs ys = Ok (st3, true) /\ tinv (E ++ [(x, y)]) st3.
+Proof.
+  intros E st x y st2 xs ys xn yn Ht Hm Hne Hb Hf.
+  destruct (asc_state (E ++ [(x, y)]) st2 xs ys x y
+              (md_cinv _ _ _ _ _ _ _ _ _ Hm) (md_dx _ _ _ _ _ _ _ _ _ Hm) (md_dy _ _ _ _ _ _ _ _ _ Hm) Hne Hb Hf
+              (md_mx _ _ _ _ _ _ _ _ _ Hm) (md_my _ _ _ _ _ _ _ _ _ Hm))
+    as [st3 [Ea [Hs [Hi [Hsub [Hc3 [Hcn [HkC HkR]]]]]]]].
+  { apply rtc_e. apply in_app_iff; right; now left. }
+  exists st3; split; [assumption|]. eapply finish_asc; eassumption.
+Qed.
+
+(* add x x for a new x: the self loop of a fresh singleton class *)
+Lemma case_self_fresh : forall E st x y st2 xs xn yn,
+  tinv E st -> mid E st x y st2 xs xs xn yn -> xn = true ->
+  exists st3, add_set_connection st2 xs xs = Ok (st3, true) /\ tinv (E ++ [(x, y)]) st3.
+Proof.
+  intros E st x y st2 xs xn yn Ht Hm Hx.
+  destruct (md_fx _ _ _ _ _ _ _ _ _ Hm Hx) as [Hge _].
+  destruct (asc_self (E ++ [(x, y)]) st2 xs
+              (md_cinv _ _ _ _ _ _ _ _ _ Hm) (md_dx _ _ _ _ _ _ _ _ _ Hm)
+              (mid_conn_key E st x y st2 xs xs xn yn Ht Hm xs Hge) (mid_rev_key E st x y st2 xs xs xn yn Ht Hm xs Hge))
+    as [st3 [Ea [Hs [Hi [Hsub [Hc3 [Hcn [HkC HkR]]]]]]]].
+  { intros a H. apply (mid_cn_old E st x y st2 xs xs xn yn Ht Hm) in H. lia. }
+  { intros a H. apply (mid_rv_old E st x y st2 xs xs xn yn Ht Hm) in H. lia. }
+  exists st3; split; [assumption|]. eapply finish_asc; eassumption.
+Qed.
+
+(* both elements old and already related: the state after the two lookups satisfies the invariant *)
+Lemma case_old_related : forall E st x y st2 xs ys,
+  tinv E st -> mid E st x y st2 xs ys false false -> rtc E x y -> tinv (E ++ [(x, y)]) st2.
+Proof.
+  intros E st x y st2 xs ys Ht Hm R. apply tinv_split.
+  split; [apply (md_cinv _ _ _ _ _ _ _ _ _ Hm)|]. split; [|split].
+  - intros d Hd. right.
+    destruct (mid_pres E st x y st2 xs ys false false Ht Hm d Hd) as [[H _]|[[H _]|H]]; [discriminate|discriminate|exact H].
+  - intros a b u v Da Db Ma Mb R'.
+    apply (mid_compl E st x y st2 xs ys false false Ht Hm a b u v Da Db Ma Mb).
+    eapply rtc_snoc_redundant; eassumption.
+  - apply (md_ids _ _ _ _ _ _ _ _ _ Hm).
+Qed.
+
+Lemma mid_old_mem : forall E st x y st2 xs ys, mid E st x y st2 xs ys false false ->
+  forall s z, mem_of st2 s z -> mem_of st s z.
+Proof.
+  intros E st x y st2 xs ys Hm s z H. apply (md_mem _ _ _ _ _ _ _ _ _ Hm) in H.
+  destruct H as [H|[[H _]|[H _]]]; [assumption|discriminate|discriminate].
+Qed.
+
+Lemma with_cr_same : forall st, with_cr st (t_conn st) (t_rev st) = st.
+Proof. intros []; reflexivity. Qed.
+
+Theorem tr_add_cases : collapse_ok_stmt -> forall E st x y, tinv E st ->
+  exists st' b, tr_add st x y = Ok (st', b) /\ tinv (E ++ [(x, y)]) st'.
+Proof.
+  intros collapse_ok E st x y Ht.
+  destruct (mid_intro E st x y Ht) as [st1 [xs [xn [st2 [ys [yn [H1 [H2 Hm]]]]]]]].
+  unfold tr_add. rewrite H1. cbn [bind]. rewrite H2. cbn [bind].
+  destruct (xn || yn) eqn:Hf.
+  - (* A: a new element *)
+    destruct (Nat.eq_dec xs ys) as [He|Hne].
+    + subst ys. pose proof (mid_fresh_ne E st x y st2 xs xs xn yn Ht Hm Hf eq_refl) as Hx.
+      destruct (case_self_fresh E st x y st2 xs xn yn Ht Hm Hx) as [st3 [Ea Ht3]].
+      rewrite Ea. cbn [bind]. exists st3, true. auto.
+    + assert (Hno : forall a b, cn st2 a b -> (a = xs \/ a = ys) -> (b = xs \/ b = ys) -> a <> b -> False).
+      { intros a b Hab Ha Hb Hd.
+        destruct (mid_cn_old E st x y st2 xs ys xn yn Ht Hm a b Hab) as [La Lb].
+        apply orb_true_iff in Hf. destruct Hf as [Hx|Hy].
+        - destruct (md_fx _ _ _ _ _ _ _ _ _ Hm Hx) as [Hge _]. destruct Ha as [->| ->], Hb as [->| ->]; try lia; congruence.
+        - destruct (md_fy _ _ _ _ _ _ _ _ _ Hm Hy) as [Hge _]. destruct Ha as [->| ->], Hb as [->| ->]; try lia; congruence. }
+      destruct (case_new_edge E st x y st2 xs ys xn yn Ht Hm Hne) as [st3 [Ea Ht3]].
+      { intros H; apply (Hno ys xs H); auto. }
+      { intros H; apply (Hno xs ys H); auto. }
+      rewrite Ea. cbn [bind]. exists st3, true. auto.
+  - apply orb_false_iff in Hf. destruct Hf as [-> ->].
+    pose proof (md_mx _ _ _ _ _ _ _ _ _ Hm) as Mx2. pose proof (md_my _ _ _ _ _ _ _ _ _ Hm) as My2.
+    pose proof (mid_old_mem _ _ _ _ _ _ _ Hm _ _ Mx2) as Mx. pose proof (mid_old_mem _ _ _ _ _ _ _ Hm _ _ My2) as My.
+    destruct (Nat.eqb_spec xs ys) as [He|Hne].
+    + (* B: same class *)
+      subst ys. exists st2, false. split; [reflexivity|].
+      eapply case_old_related; [exact Ht|exact Hm|]. eapply (m_class E st Ht); eassumption.
+    + assert (Hback : match aget ys (t_conn st2) with Some c => smem xs c | None => false end
+                      = smem xs (eget ys (t_conn st2))).
+      { unfold eget. destruct (aget ys (t_conn st2)); reflexivity. }
+      rewrite Hback. clear Hback.
+      destruct (smem xs (eget ys (t_conn st2))) eqn:Hyx.
+      * (* C: back edge, collapse *)
+        apply smem_in in Hyx.
+        destruct (collapse_ok E st2 x y xs ys) as [st' [Ec Ht']].
+        -- apply (md_cinv _ _ _ _ _ _ _ _ _ Hm).
+        -- intros d Hd.
+           destruct (mid_pres E st x y st2 xs ys false false Ht Hm d Hd) as [[H _]|[[H _]|H]]; [discriminate|discriminate|right; exact H].
+        -- eapply mid_compl; eassumption.
+        -- apply (md_ids _ _ _ _ _ _ _ _ _ Hm).
+        -- apply (md_dx _ _ _ _ _ _ _ _ _ Hm).
+        -- apply (md_dy _ _ _ _ _ _ _ _ _ Hm).
+        -- assumption.
+        -- assumption.
+        -- assumption.
+        -- exact Hyx.
+        -- exists st', true. auto.
+      * apply smem_false in Hyx.
+        destruct (smem ys (eget xs (t_conn st2))) eqn:Hxy.
+        -- (* D1: the edge exists *)
+           rewrite (asc_early st2 xs ys Hxy). cbn [bind].
+           assert (Hsame : with_cr st2 (ensure xs (t_conn st2)) (t_rev st2) = st2).
+           { unfold ensure. destruct (aget xs (t_conn st2)) eqn:Hk; [apply with_cr_same|]. exfalso.
+             destruct (mid_pres E st x y st2 xs ys false false Ht Hm xs (md_dx _ _ _ _ _ _ _ _ _ Hm)) as [[H _]|[[H _]|[H _]]];
+               try discriminate. unfold ahas in H; rewrite Hk in H; discriminate. }
+           rewrite Hsame. exists st2, true. split; [reflexivity|].
+           eapply case_old_related; [exact Ht|exact Hm|].
+           apply smem_in in Hxy.
+           eapply (m_conn E st Ht xs ys); [|eassumption|eassumption].
+           apply (mid_cn E st x y st2 xs ys false false Hm). exact Hxy.
+        -- (* D2: a new edge *)
+           apply smem_false in Hxy.
+           destruct (case_new_edge E st x y st2 xs ys false false Ht Hm Hne Hyx Hxy) as [st3 [Ea Ht3]].
+           rewrite Ea. cbn [bind]. exists st3, true. auto.
+Qed.
+
+Section Cases.
+  Hypothesis collapse_ok : collapse_ok_stmt.
+  Theorem tr_add_inv_gen : forall E st x y, tinv E st ->
+    exists st' b, tr_add st x y = Ok (st', b) /\ tinv (E ++ [(x, y)]) st'.
+  Proof. exact (tr_add_cases collapse_ok). Qed.
+End Cases.
+
+Print Assumptions tr_empty_inv.
+Print Assumptions tr_add_inv_gen.
